@@ -201,7 +201,13 @@ class Reader(object):
             off = m.group(8)
             o = 0 if off in 'Zz' else (int(off[1:3]) * 60 + int(off[4:6])) * 60 * (1 if off[0] == '+' else -1)
             t['datetime'] += 1
-            return ('dt', (y, mo, d, h, mi, s, int((m.group(7) or '')[:6].ljust(6, '0'))), o, m.group(9))
+            n = ('dt', (y, mo, d, h, mi, s, int((m.group(7) or '')[:6].ljust(6, '0'))), o, m.group(9))
+            if n[3] is not None and self.strict:
+                from vf import tzref
+                why = tzref.check_zone_offset(n[3], n[1], n[2])
+                if why:
+                    raise RefReject('zone-offset-mismatch', 0, why)
+            return n
         if p == 'c:':
             m = COORD_RE.match(body)
             if not m:
